@@ -1,4 +1,124 @@
-import MementoModel.Model.RunnerProg
-namespace Memento.Runner
-theorem placeholder_C14 : replay (.val none) = .val none := rfl
-end Memento.Runner
+import MementoModel.Lemmas.VersionLemmas
+
+/-!
+# C14 — the static dependency closure is exact and calls outside it are refused
+
+Model: `Model/Version.lean` (rule collection as a depth-first closure over rule keys with cycle
+breaking, `transitive_/direct_memento_fn_dependencies`, graph edges, `_validate_dependency`).
+All statements hold for every program (any number of definitions, any reference graph incl. cycles
+and self references), every root function and every enumeration order `ord` of reference sets.
+
+Name-level vocabulary (defined in `Lemmas/VersionLemmas.lean`):
+* `RefersTo P p g`  — `g` is among the names in the body of `p`;
+* `expands P h`     — `h` is a memento function or an in-package plain function (descended into);
+* `ReachN P f g`    — `g` is reached from `f` along references whose intermediate definitions expand;
+* `ReachPlain P g h`— `h` is reached from `g` along references through in-package plain functions only.
+-/
+namespace Memento.Version
+
+/-- The workhorse (also used by C01/C03): with the fuel the model uses, the collected rule set is
+    exactly the set of rule nodes reachable from the root rule — soundness and completeness of the
+    depth-first traversal with cycle breaking, for any enumeration order. -/
+theorem rules_eq_reachable (P : Prog) (ord : List Name → List Name) (hord : OrdOK ord) (f : Name) (x : Node) :
+    x ∈ rules P ord f ↔
+      (x = rootNode f ∨ ∃ p, (p = f ∨ (ReachN P f p ∧ expands P p = true)) ∧ RefersTo P p x.target ∧
+        mkNode P p x.target = some x) :=
+  mem_rules_nodeOK hord
+
+/-- the rule set has no duplicate keys (it is a set) -/
+theorem rules_keys_nodup (P : Prog) (ord : List Name → List Name) (f : Name) : (rules P ord f).Nodup :=
+  rules_nodup P ord f
+
+/-- the reported transitive memento dependencies are exactly the memento functions reachable in the
+    reference graph (through memento and in-package plain functions), the function itself excluded -/
+theorem transDeps_exact (P : Prog) (ord : List Name → List Name) (hord : OrdOK ord) (f g : Name) :
+    g ∈ transDeps P ord f ↔ g ≠ f ∧ isMemento P g = true ∧ ReachN P f g :=
+  mem_transDeps hord
+
+/-- the reported direct dependencies are exactly the memento functions named in the function's own body -/
+theorem directDeps_exact (P : Prog) (ord : List Name → List Name) (hord : OrdOK ord) (f g : Name) :
+    g ∈ directDeps P ord f ↔ g ≠ f ∧ isMemento P g = true ∧ RefersTo P f g :=
+  mem_directDeps hord
+
+/-- direct dependencies are transitive dependencies -/
+theorem directDeps_subset_transDeps (P : Prog) (ord : List Name → List Name) (hord : OrdOK ord) (f g : Name)
+    (h : g ∈ directDeps P ord f) : g ∈ transDeps P ord f := by
+  obtain ⟨hne, hm, href⟩ := (mem_directDeps hord).mp h
+  exact (mem_transDeps hord).mpr ⟨hne, hm, ReachN.direct href⟩
+
+/-- the dependency graph links a memento function `g` of the closure to exactly the memento functions it
+    reaches without passing through another memento function -/
+theorem graph_exact (P : Prog) (ord : List Name → List Name) (hord : OrdOK ord) (f g h : Name) :
+    (g, h) ∈ graphEdges P ord f ↔
+      (g = f ∨ (g ≠ f ∧ isMemento P g = true ∧ ReachN P f g)) ∧
+      h ≠ g ∧ isMemento P h = true ∧ ReachPlain P g h := by
+  unfold graphEdges
+  simp only [List.mem_flatMap, List.mem_map, List.mem_cons, Prod.mk.injEq, mem_transDeps hord]
+  constructor
+  · rintro ⟨g', hg', h', hh', rfl, rfl⟩
+    exact ⟨hg', (mem_edgesFrom hord).mp hh'⟩
+  · rintro ⟨hg, hh⟩
+    exact ⟨g, hg, h, (mem_edgesFrom hord).mpr hh, rfl, rfl⟩
+
+/-- a call from an automatically versioned caller to a memento function that is neither the caller itself,
+    nor in its closure, nor passed to this invocation as an argument, is refused -/
+theorem validate_refuses (P : Prog) (ord : List Name → List Name) (hord : OrdOK ord)
+    (caller callee : Name) (fnArgs : List Name) (tok : Tok) (refs : List Name)
+    (hauto : lookup P caller = some (.memento none tok refs))
+    (hself : callee ≠ caller) (hargs : callee ∉ fnArgs)
+    (hout : ¬ (isMemento P callee = true ∧ ReachN P caller callee)) :
+    callAllowed P ord caller callee fnArgs = false := by
+  unfold callAllowed
+  simp only [hauto]
+  have h1 : (caller == callee) = false := by simpa using fun h => hself h.symm
+  have h2 : (transDeps P ord caller).contains callee = false := by
+    simp only [List.contains_eq_mem, decide_eq_false_iff_not, mem_transDeps hord]
+    exact fun h => hout ⟨h.2.1, h.2.2⟩
+  have h3 : fnArgs.contains callee = false := by simpa using hargs
+  simp only [h1, h2, h3, Bool.or_self]
+
+/-- conversely: everything in the closure, the caller itself and functions passed as arguments may be
+    called; an explicitly versioned caller is not checked at all -/
+theorem validate_allows (P : Prog) (ord : List Name → List Name) (hord : OrdOK ord)
+    (caller callee : Name) (fnArgs : List Name)
+    (h : callee = caller ∨ callee ∈ fnArgs ∨ (callee ≠ caller ∧ isMemento P callee = true ∧ ReachN P caller callee)) :
+    callAllowed P ord caller callee fnArgs = true := by
+  unfold callAllowed
+  split
+  · rfl
+  · rcases h with rfl | h | h
+    · simp
+    · simp [h]
+    · have : callee ∈ transDeps P ord caller := (mem_transDeps hord).mpr h
+      simp [this]
+
+theorem validate_explicit_unchecked (P : Prog) (ord : List Name → List Name) (caller callee : Name)
+    (fnArgs : List Name) (e : List Char) (tok : Tok) (refs : List Name)
+    (h : lookup P caller = some (.memento (some e) tok refs)) :
+    callAllowed P ord caller callee fnArgs = true := by
+  unfold callAllowed; simp [h]
+
+/-- the reports do not depend on the order in which reference sets are enumerated -/
+theorem deps_order_independent (P : Prog) (ord ord' : List Name → List Name) (h : OrdOK ord) (h' : OrdOK ord')
+    (f g : Name) :
+    (g ∈ transDeps P ord f ↔ g ∈ transDeps P ord' f) ∧ (g ∈ directDeps P ord f ↔ g ∈ directDeps P ord' f) := by
+  rw [mem_transDeps h, mem_transDeps h', mem_directDeps h, mem_directDeps h']
+  exact ⟨Iff.rfl, Iff.rfl⟩
+
+/-! ### non-vacuity: a cycle through a plain helper, an out-of-package helper, a hidden (unlisted) callee
+
+    0 = m0 (memento) -> 1 (plain, in package) -> 2 = m2 (memento) -> 0 ; m0 -> 3 (plain, other package) -> 4 = m4 -/
+def exProg : Prog :=
+  [(0, .memento none 10 [1, 3, 5]), (1, .plain true 11 [2]), (2, .memento none 12 [0]),
+   (3, .plain false 13 [4]), (4, .memento none 14 []), (5, .var (some 7))]
+
+example : transDeps exProg id 0 = [2] := by decide +kernel
+example : directDeps exProg id 0 = [] := by decide +kernel
+example : transDeps exProg id 2 = [0] := by decide +kernel
+example : graphEdges exProg id 0 = [(0, 2), (2, 0)] := by decide +kernel
+example : callAllowed exProg id 0 4 [] = false := by decide +kernel     -- m4 only reachable through another package
+example : callAllowed exProg id 0 4 [4] = true := by decide +kernel     -- unless passed as an argument
+example : callAllowed exProg id 0 2 [] = true := by decide +kernel
+example : transDeps exProg List.reverse 0 = [2] := by decide +kernel
+
+end Memento.Version
